@@ -15,7 +15,7 @@ RULE = ("cases are (kind, 32-byte key class, plaintext bytes, method) drawn from
         "malformed (short/unaligned/empty ciphertext, unknown or non-string method, wrongly shaped stored secrets "
         "through SecureField.to_python); a case is non-trivial when at least one oracle comparison was evaluated; "
         "distinct = distinct case content")
-REQUIRED = ("aes_oracle_decrypts", "aes_library_decrypts_oracle_output", "xor_oracle_checks", "malformed_rejected",
+REQUIRED = ("stored_secrets_with_equal_plaintext_compared", "aes_oracle_decrypts", "aes_library_decrypts_oracle_output", "xor_oracle_checks", "malformed_rejected",
             "iv_sets_checked", "wrong_key_checks", "stored_secret_shapes_rejected", "sessions_judged", "provider_objects_judged",
             "rekeyed_objects_judged", "key_file_replaced_between_contexts", "iv_checks_under_reseeded_global_random", "large_plaintexts",
             "stored_secret_reloaded_after_rekey")
@@ -221,6 +221,33 @@ def run(case, ctx, res):
         if len(set(again)) != len(again):
             res.viol("M-iv", feat + ":reseeded", "the IV repeats when the global random module is re-seeded before each encryption "
                      "(%d distinct of %d): it is derived from a reproducible generator" % (len(set(again)), len(again)))
+        # the same through a configuration: one plaintext held by two fields, three items of a list of secrets and two
+        # entries of a dict of secrets; every stored value has its own IV, within one document and across two documents
+        if isinstance(pt, str) and pt:
+            schema = cc.Schema()
+            schema.one = cc.SecureField(method=method)
+            schema.two = cc.SecureField(method=method)
+            schema.many = cc.ListField(cc.SecureField(method=method))
+            schema.named = cc.DictField(cc.StringField(), cc.SecureField(method=method))
+            cfg = cc.Config(schema, key_filename=path)
+            cfg.one = cfg.two = pt
+            cfg.many = [pt, pt, pt]
+            cfg.named = {"a": pt, "b": pt}
+            stored = []
+            for _ in range(2):
+                t = cfg.to_tree()
+                stored += [t["one"], t["two"]] + list(t["many"]) + list(t["named"].values())
+            res.count("stored_secrets_with_equal_plaintext_compared", len(stored))
+            try:
+                raw = [base64.b64decode(e["ciphertext"]) for e in stored]
+            except Exception as exc:
+                res.viol("M-iv", feat + ":stored-shape", "stored secrets are %r (%r)" % (stored[:2], exc))
+                return
+            if len({c[:16] for c in raw}) != len(raw) or len(set(raw)) != len(raw):
+                res.viol("M-iv", feat + ":stored", "equal plaintexts held by several fields / list items / dict entries of one "
+                         "configuration are stored with %d distinct IVs and %d distinct ciphertexts among %d values" % (
+                             len({c[:16] for c in raw}), len(set(raw)), len(raw)))
+                return
         res.nontrivial(kind, method, key.hex(), ptb.hex())
 
     elif kind == "provider":
